@@ -1817,7 +1817,8 @@ pub(crate) fn resolve_temp_id(id: &str) -> Option<usize> {
     let mut iter = id.chars();
     if let Some('!') = iter.next() {
         if let Some(x) = iter.next() {
-            if !x.is_uppercase() {
+            //the type letter is an ASCII capital (so the number starts at byte 2)
+            if !x.is_ascii_uppercase() {
                 return None;
             }
             return Some(id[2..].parse().ok()?);
